@@ -130,6 +130,8 @@ impl WriteAdapter {
 
 impl Write for WriteAdapter {
     fn write(&mut self, buf: &[u8]) -> io::Result<usize> {
+        #[cfg(cadence_verif)]
+        crate::verif::point("sock.write", self as *const Self as usize, buf.len() as u64, 0);
         send_metric(&self.sender, buf)
     }
 
